@@ -944,6 +944,7 @@ type c05Judge struct {
 	ctx       *Ctx
 	allSteps  bool // judge every step (random cases) or only the last one (enumerated: prefixes are cases themselves)
 	wireLines int  // how many extra gamma/den/includes correspondence lines per case
+	nTF       int  // slice d05b: counter for sampling the rfn.textfree correspondence
 }
 
 func (j *c05Judge) fail(site, sig, what string, recv c05Recv, cs []c05Call, outcome string) {
@@ -976,13 +977,24 @@ func (j *c05Judge) run(recv c05Recv, calls []c05Call) {
 		// the same case under the exact-where-it-answers equality oracle (the instance the theorems
 		// are tied through); the driver answers "unmodelled" where the decimal text could matter
 		ctx.Add("rfn.runx", impl, rw, c05Wires(calls))
+		// slice d05b: the side condition of the bridge theorems, evaluated on the real code, against the model's
+		// (every third numeric case: the model evaluates the shortest decimal text of every pair)
+		if j.nTF++; j.nTF%3 == 0 {
+			ctx.Add("rfn.textfree", encBool(c05TextAgrees(recv, calls)), rw, c05Wires(calls))
+		}
 		if c05TextFree(recv, calls) {
 			// all numbers are integers or infinities: the code's text-based equality provably coincides with exact
 			// comparison (C05.run_code_eq_exact), so the model under the total exact oracle must give this very outcome
 			ctx.Add("rfn.runi", impl, rw, c05Wires(calls))
 			ctx.Tag("bridge:integers-only(runi)")
+		} else if c05TextAgrees(recv, calls) {
+			// slice d05b: some non-integer, but every two numbers of the input are compared by Value.Equals exactly as
+			// by Cmp (the decidable condition D05b.textFree, evaluated here on the real code): the model under the
+			// total exact oracle must give this very outcome too (C05.refine_code_eq_exact_textfree)
+			ctx.Add("rfn.runi", impl, rw, c05Wires(calls))
+			ctx.Tag("bridge:text-free-non-integer(runi)")
 		} else {
-			ctx.Tag("bridge:some-non-integer")
+			ctx.Tag("bridge:text-dependent")
 		}
 	}
 	if j.allSteps && ctx.R.Intn(3) == 0 {
@@ -1239,6 +1251,7 @@ func (j *c05Judge) judgeKnown(recv c05Recv, uRecv cty.Value, calls []c05Call, re
 	if panicAt == -1 && !res.RawEquals(recv.v) {
 		j.fail("known-is-assertion", "known-changed:"+tk, "refining a known value returned a different value", recv, calls, encVal(res))
 	}
+	c05d05bJointLength(j, recv, uRecv, calls, panicAt) // slice d05b: accepted length constraints hold JOINTLY of some possible length
 	// the concrete values the known receiver stands for, among the samples
 	var mine []c05Sample
 	for _, x := range samples {
@@ -1460,6 +1473,13 @@ func runC05(ctx *Ctx) {
 	c05d05Integers(ctx, rnd)
 	c05d05Chains(ctx, rnd, &scope)
 	c05d05RawUnknown(ctx, rnd, &scope)
+
+	// ---------- (b'') slice d05b: non-integer text-free cases (the bridge), far-side infinities, known collections
+	// whose length is a range
+	c05d05bFractions(ctx, rnd)
+	c05d05bFarInfinity(ctx, rnd, &scope)
+	c05d05bKnownLengths(ctx, rnd, &scope)
+	c05d05bOnePrecision(ctx, &scope)
 
 	// ---------- (c) prefixes
 	c05Prefixes(ctx, &scope)
